@@ -93,8 +93,8 @@ def main(argv):
         for (kind, where), (text, blk) in sorted(first_reports.items()):
             ck.oracle_violation("ThreadSanitizer: %s in %s" % (kind, " / ".join(where) or "?"), text + "\n" + blk, name="tsan")
         # (b) stress
-        runs = [(2, 300, "ccay"), (8, 200, "ccaay"), (4, 60, "ccakky")] if ck.tier == "quick" else \
-               [(n, 400, m) for n in (2, 3, 4, 8, 12, 16) for m in ("ccay", "caay", "ccakky", "akky")]
+        runs = [(2, 300, "ccafy"), (8, 200, "ccaafy"), (4, 60, "ccakkfy")] if ck.tier == "quick" else \
+               [(n, 400, m) for n in (2, 3, 4, 8, 12, 16) for m in ("ccafy", "caafy", "ccakkfy", "akkfy")]
         seen_races = {}
         nt = 0
         for i, (n, iters, mix) in enumerate(runs):
